@@ -837,3 +837,19 @@ V("shaving-counters-in-locals-wrong-branch", "break", ["C17"], "nucs/solvers/sha
          {"old": "            statistics[STATS_IDX_ALG_SHAVING_NO_CHANGE_NB] += 1\n", "new": "            shaving_change_nb += 1\n"},
          {"old": "    return PROBLEM_UNBOUND\n", "new": "    statistics[STATS_IDX_ALG_SHAVING_NB] += shaving_nb\n    statistics[STATS_IDX_ALG_SHAVING_CHANGE_NB] += shaving_change_nb\n    statistics[STATS_IDX_ALG_SHAVING_NO_CHANGE_NB] += shaving_nb - shaving_change_nb\n    return PROBLEM_UNBOUND\n", "within": "def shaving_consistency_algorithm"},
          {"old": "            if status != PROBLEM_UNBOUND:\n                return status\n", "new": "            if status != PROBLEM_UNBOUND:\n                statistics[STATS_IDX_ALG_SHAVING_NB] += shaving_nb\n                statistics[STATS_IDX_ALG_SHAVING_CHANGE_NB] += shaving_change_nb\n                statistics[STATS_IDX_ALG_SHAVING_NO_CHANGE_NB] += shaving_nb - shaving_change_nb\n                return status\n", "within": "def shaving_consistency_algorithm"}])
+V("bc-fast-path-before-pass-counter", "break", ["C17"], BC, "    statistics[STATS_IDX_ALG_BC_NB] += 1\n",
+  "    if not np.any(triggered_propagators):\n        return PROBLEM_BOUND if is_solved(shr_domains_stack, stacks_top) else PROBLEM_UNBOUND\n    statistics[STATS_IDX_ALG_BC_NB] += 1\n",
+  "a pass that finds the queue empty answers before it is counted", "bound_consistency_algorithm")
+V("bc-fast-path-after-pass-counter-neutral", "neutral", ["C17", "C01", "C08", "C04"], BC, "    statistics[STATS_IDX_ALG_BC_NB] += 1\n",
+  "    statistics[STATS_IDX_ALG_BC_NB] += 1\n    if not np.any(triggered_propagators):\n        return PROBLEM_BOUND if is_solved(shr_domains_stack, stacks_top) else PROBLEM_UNBOUND\n",
+  "the same fast path placed after the counter")
+V("init-unstable-argsort", "break", ["C15"], PB, "        self.propagators.sort(key=lambda prop: GET_COMPLEXITY_FCTS[prop[1]](len(prop[0]), prop[2]))\n",
+  "        order = np.argsort(np.array([GET_COMPLEXITY_FCTS[prop[1]](len(prop[0]), prop[2]) for prop in self.propagators]))\n        self.propagators = [self.propagators[k] for k in order]\n",
+  "the constraints re-ordered with an unstable argsort", "init")
+V("init-stable-argsort-neutral", "neutral", ["C15", "C13"], PB, "        self.propagators.sort(key=lambda prop: GET_COMPLEXITY_FCTS[prop[1]](len(prop[0]), prop[2]))\n",
+  "        order = np.argsort(np.array([GET_COMPLEXITY_FCTS[prop[1]](len(prop[0]), prop[2]) for prop in self.propagators]), kind=\"stable\")\n        self.propagators = [self.propagators[k] for k in order]\n",
+  "the same with kind='stable'")
+V("element-liv-stores-before-no-candidate-exit", "break", ["C15"], P + "element_liv_propagator.py",
+  "    if i[MAX] < i[MIN]:\n        return PROP_INCONSISTENCY\n    v[MIN] = max(v[MIN], v_min)\n    v[MAX] = min(v[MAX], v_max)\n",
+  "    v[MIN] = max(v[MIN], v_min)\n    v[MAX] = min(v[MAX], v_max)\n    if i[MAX] < i[MIN] or v[MAX] < v[MIN]:\n        return PROP_INCONSISTENCY\n",
+  "the running extrema stored before the 'no candidate' exit: the 64-bit sentinel reaches a 32-bit cell", "compute_domains_element_liv")
